@@ -134,6 +134,18 @@ def chains(tier, rng):
             if i % 5 == 0:
                 akinds = list(ASSERTS)
                 yield ([(k0, akinds[i % 5]), (k1, akinds[(i // 5) % 5])], "+", None)
+    # the same layer value used twice in one chain (mixins applied repeatedly)
+    reuse_kinds = ["plain", "plus", "hidden", "super_same", "super_other", "in_super", "local_backed", "self_other", "dollar_other"]
+    j = 0
+    for k0 in itertools.product(["plain", "hidden", "local_backed", "absent"], repeat=2):
+        for k1 in itertools.product(reuse_kinds, repeat=2):
+            j += 1
+            for order in ([0, 1, 1], [0, 1, 0, 1], [1, 0, 1], [0, 0, 1]):
+                if tier == "quick" and (j + len(order)) % 2:
+                    continue
+                yield ([(k0, "none"), (k1, "none")], "+", None, order)
+            if j % 4 == 0:
+                yield ([(k0, "none"), (k1, "true")], "+", (1, "a"), [0, 1, 1])
     # 3 layers
     if tier == "quick":
         for _ in range(6000):
@@ -155,14 +167,26 @@ def chains(tier, rng):
             yield (ls, rng.choice(styles), rng.choice([None, None] + [(p, n) for p in range(nl) for n in NAMES]))
 
 
-def check_chain(acc, w, spec):
-    layers_spec, style, remove = spec
+def build(spec):
+    """-> (binds, chain expr): layers are bound to locals m<i> when the chain order reuses one
+    of them (the same object value appearing twice in a chain)"""
+    layers_spec, style, remove = spec[:3]
+    order = spec[3] if len(spec) > 3 else None
     nodes = [layer_node(k, i, a) for i, (k, a) in enumerate(layers_spec)]
-    chain = compose(nodes, style, remove)
+    if order is None:
+        return [], compose(nodes, style, remove)
+    binds = [("bind", "m%d" % i, nd) for i, nd in enumerate(nodes)]
+    return binds, compose([V("m%d" % i) for i in order], "+", remove)
+
+
+def check_chain(acc, w, spec):
+    layers_spec = spec[0]
+    remove = spec[2]
+    binds, chain = build(spec)
     allok = True
-    label = "chain:%d" % len(layers_spec)
+    label = "chain:%d" % len(spec[3] if len(spec) > 3 else layers_spec)
     for pname, probe in PROBES:
-        ast = ("local", [("bind", "o", chain), ("bind", "o2", chain)], probe)
+        ast = ("local", binds + [("bind", "o", chain), ("bind", "o2", chain)], probe)
         it = interp.Interp()
         try:
             ref = it.run(ast)
@@ -194,8 +218,7 @@ def shard(idx, n, tier, seed, binary):
                 continue
             check_chain(acc, w, spec)
             if i == idx:
-                nodes = [layer_node(k, j, a) for j, (k, a) in enumerate(spec[0])]
-                acc.sample({"chain": jast.to_source(compose(nodes, spec[1], spec[2]))})
+                acc.sample({"chain": jast.to_source(build(spec)[1])})
     finally:
         w.close()
     if idx == 0:
